@@ -1,6 +1,6 @@
 """C04 Tokenizer vocabulary maps are mutually consistent bijections: id-space agreement rules."""
 from analysis.engine import rule, AnchorMissing
-from analysis.sym import sym, show_in, nosite, peel, core, walk, ret_values, args_of, cmp_facts_at
+from analysis.sym import sym, show_in, nosite, peel, core, walk, ret_values, args_of, cmp_facts_at, agg_field
 from analysis.pat import match, Call, Cap, ANY, Pred, Const, has, chain_names
 from rules.common import body_for, bpe_body, closure_of, BPE, BYTE
 from rules import bpe_ids
@@ -164,3 +164,44 @@ def r5(ctx):
     good = any(match(t, ('bin', 'Add', Const(256), Call('HashSet::len', ANY))) or
                match(t, ('bin', 'Add', Call('HashSet::len', ANY), Const(256))) for s, t in adds)
     ctx.require(good, b, 'num-tokens', 'num_tokens = 256 + number of distinct special tokens', None)
+
+
+@rule('C04', 'R-C04-6', 'T2 provenance',
+      'pad / prefix / suffix ids are looked up in the special vocabulary that Vocab::build produced (the only place '
+      'that knows the ids after de-duplication), not recomputed from list positions')
+def r6(ctx):
+    b = ctx.body('tokenization::BaseTokenizer::new_base_tokenizer')
+    oks = [v for v, bb in ret_values(b) if v[0] == 'agg' and v[2].endswith('Result::Ok')]
+    if len(oks) != 1:
+        raise AnchorMissing('Ok(BaseTokenizer {..}) in new_base_tokenizer')
+    st = oks[0][3][0]
+    vb = list(b.calls(r'Vocab::build$'))
+    if len(vb) != 1:
+        raise AnchorMissing('Vocab::build call')
+    sv = core(sym(b, vb[0].dest))
+    is_sv = Pred(lambda t: nosite(core(t)) == sv)
+    pad = agg_field(ctx.facts, st, 'pad_token_id')
+    good = pad is not None and match(core(pad), Call('ok_or_else', Call('Vocab::token_to_id', is_sv, ('field', ('arg', 2, ANY), 'pad')), ANY))
+    ctx.require(good, b, 'pad-id', 'pad_token_id = special_vocab.token_to_id(special_config.pad)',
+                'pad_token_id is %s' % (show_in(b, pad) if pad is not None else '?'))
+    fv = agg_field(ctx.facts, st, 'special_vocab')
+    ctx.require(fv is not None and nosite(core(fv)) == sv, b, 'special-vocab-field',
+                'the stored special_vocab is the one built by Vocab::build', None)
+    for fld, cfg_fld in (('prefix_token_ids', 'prefix'), ('suffix_token_ids', 'suffix')):
+        v = agg_field(ctx.facts, st, fld)
+        good = False
+        why = ''
+        if v is not None:
+            cv = core(v)
+            m = [x for x in walk(cv) if isinstance(x, tuple) and x and x[0] == 'call' and x[1].endswith('Iterator::map')]
+            if m and has(m[0][2][0], ('field', ('arg', 2, ANY), cfg_fld)):
+                clo = closure_of(ctx, m[0][2][1])
+                crv = ret_values(clo)
+                good = len(crv) == 1 and match(core(crv[0][0]), Call('ok_or_else', Call('Vocab::token_to_id', ('upvar', 0, ANY), ('arg', 2, ANY)), ANY)) \
+                    and m[0][2][1][3] and nosite(core(m[0][2][1][3][0])) == sv
+                why = show_in(clo, crv[0][0]) if crv else ''
+            src, names = chain_names(cv)
+            if [n for n in names if n in ('enumerate', 'position', 'zip')]:
+                good = False
+        ctx.require(good, b, 'frame-ids|' + cfg_fld, '%s = special_vocab.token_to_id(tok) for each configured %s token' % (fld, cfg_fld),
+                    '%s is %s %s' % (fld, show_in(b, v) if v is not None else '?', why))
